@@ -693,7 +693,48 @@ class Inliner:
         ast.fix_missing_locations(s)
         return pre_all + [s]
 
+    _GEN_CONSUMERS = ("sorted", "list", "set", "tuple", "frozenset", "dict", "sum", "max", "min", "any", "all")
+
+    def _hoist_consumed_gen(self, s: ast.stmt, cls, caller_q) -> Optional[List[ast.stmt]]:
+        """`... sorted(gen_helper(a), key=k) ...`  ->  `_sv_genN = list(gen_helper(a)); ... sorted(_sv_genN, key=k) ...`
+        (the list form is then expanded like any `x = list(gen_helper(...))`): an eager consumer sees the same items."""
+        if not isinstance(s, (ast.Assign, ast.AnnAssign, ast.Return, ast.Expr, ast.AugAssign)) or getattr(s, "value", None) is None:
+            return None
+        found = None
+        for c in ast.walk(s.value):
+            if not isinstance(c, ast.Call):
+                continue
+            is_cons = isinstance(c.func, ast.Name) and c.func.id in self._GEN_CONSUMERS
+            is_join = isinstance(c.func, ast.Attribute) and c.func.attr == "join" and isinstance(c.func.value, ast.Constant)
+            if not (is_cons or is_join) or not c.args or not isinstance(c.args[0], ast.Call):
+                continue
+            t = self._target(c.args[0], cls)
+            if t is None or not t[1].is_gen or not self._inlinable(t[0], t[1], caller_q):
+                continue
+            # the plain forms are handled directly
+            if c is s.value and isinstance(c.func, ast.Name) and c.func.id in ("list", "set") and len(c.args) == 1 and not c.keywords:
+                continue
+            found = c
+            break
+        if found is None:
+            return None
+        self._gen_tmp = getattr(self, "_gen_tmp", 0) + 1
+        tmp = f"_sv_gen{self._gen_tmp}"
+        gcall = found.args[0]
+        a = ast.Assign(targets=[ast.Name(id=tmp, ctx=ast.Store())], value=ast.Call(func=ast.Name(id="list", ctx=ast.Load()), args=[gcall], keywords=[]), type_comment=None)
+        ast.copy_location(a, s)
+        ast.fix_missing_locations(a)
+        rep = self._rewrite_stmt0(a, cls, caller_q)
+        if rep is None:
+            return None
+        found.args[0] = ast.copy_location(ast.Name(id=tmp, ctx=ast.Load()), gcall)
+        ast.fix_missing_locations(s)
+        return rep + [s]
+
     def _rewrite_stmt(self, s: ast.stmt, cls, caller_q) -> Optional[List[ast.stmt]]:  # noqa: C901
+        rep = self._hoist_consumed_gen(s, cls, caller_q)
+        if rep is not None:
+            return rep
         rep = self._rewrite_stmt0(s, cls, caller_q)
         if rep is not None:
             return rep
